@@ -232,6 +232,19 @@ def run(ctx):
         tks = lst.tokenize().tolist()
         if tks != [[CODE[c] for c in o[0]] + [PCODE[o[1]]] for o in lst_ops]:
             ctx.fail('PauliList.tokenize', 'wrong tokens', dict(ops=lst_ops, got=tks))
+        # the token table of a whole list parses back to the list, as a 2-D array, as a list of rows, row by row
+        try:
+            tarr = lst.tokenize()
+            forms = [('2-D array', (np.asarray(tarr),)), ('list of rows', (np.asarray(tarr).tolist(),))]
+            if len(lst_ops) >= 2:       # a single row handed over as the only argument is, by the API, a collection of objects, not one operator
+                forms += [('rows', tuple(np.asarray(tarr))), ('lists', tuple(np.asarray(tarr).tolist()))]
+            for form, arg in forms:
+                back = pc.paulis(*arg)
+                ctx.count('tokens->paulis:' + form)
+                if impl.ops_of(back) != lst_ops:
+                    ctx.fail('paulis', 'tokenize() of a list parsed back through paulis(%s) gives %s' % (form, impl.ops_of(back)), dict(ops=lst_ops, tokens=tks)); break
+        except Exception as e:
+            ctx.fail('paulis', 'parsing the token table of a list raised %r' % e, dict(ops=lst_ops, tokens=tks))
     # malformed
     for bad, exp in ((3.5, 'err TypeError'), (None, 'err TypeError'), ({0: 1}, 'err ValueError')):
         try:
